@@ -123,7 +123,7 @@ pub fn valid_program(s: &mut Src, o: &GenOpts) -> Program {
     }
     // optional leading padding blob: sweeps the position of everything that follows
     if o.blobs && s.chance(1, 2) {
-        ops.push(Op::Blob(BlobSpec { len: (s.below(255) * 4 + s.below(2) * 1020) as u32, seed: s.u64() | 1, chunk: 0 }));
+        ops.push(Op::Blob(BlobSpec { len: (s.below(255) * 4 + s.below(2) * 1020) as u32, seed: s.u64() | 1, chunk: 0, xmlish: false }));
     }
     let k = 1 + s.below(o.max_ops as u64) as usize;
     for _ in 0..k {
@@ -149,6 +149,10 @@ pub struct Trace {
     pub finalize_entered: bool,
     pub finalized: bool,
     pub xml_out: Option<String>,
+    /// input flag: call the top-level finalize a second time when the first call fails
+    pub retry_finalize: bool,
+    /// the second finalize call reported success
+    pub finalized_on_retry: bool,
     /// handle onto the device, to observe injected faults
     pub probe: Option<MemDev>,
     /// a call returned success although an injected device fault fired during it
@@ -385,8 +389,25 @@ pub fn exec(p: &Program, dev: MemDev, tr: &mut Trace) {
         End::Finalize => {
             marker.mark("finalize");
             tr.finalize_entered = true;
-            call!(tr, "finalize", w.finalize());
-            tr.finalized = true;
+            tr.current = "finalize".into();
+            tr.calls += 1;
+            match w.finalize() {
+                Ok(()) => {
+                    tr.after_ok("finalize");
+                    tr.finalized = true;
+                }
+                Err(e) => {
+                    tr.error = Some(("finalize".to_string(), e.to_string()));
+                    if tr.retry_finalize {
+                        // a caller may try again after a transient device error
+                        tr.current = "finalize (second call)".into();
+                        if w.finalize().is_ok() {
+                            tr.finalized_on_retry = true;
+                        }
+                    }
+                    return;
+                }
+            }
         }
         End::FinalizeXml(extra) => {
             marker.mark("finalize");
@@ -682,10 +703,10 @@ pub fn sweep_programs(thorough: bool) -> Vec<Program> {
             out.push(Program {
                 guid: format!("{{sweep-{res}-{k}}}"),
                 ops: vec![
-                    Op::Blob(BlobSpec { len: 4 * res, seed: 2 * res as u64 + 1, chunk: 0 }),
+                    Op::Blob(BlobSpec { len: 4 * res, seed: 2 * res as u64 + 1, chunk: 0, xmlish: false }),
                     cloud("{first}", n, res as u64 * 31 + k as u64),
                     cloud("{second}", 3, 5),
-                    Op::Blob(BlobSpec { len: 3, seed: 9, chunk: 0 }),
+                    Op::Blob(BlobSpec { len: 3, seed: 9, chunk: 0, xmlish: false }),
                 ],
                 end: End::Finalize,
             });
